@@ -92,7 +92,15 @@ pub fn replay(args: &Args) {
             }
             for sc in scales {
                 let junk: Vec<(usize, usize)> = junk_abs.iter().map(|&(r, c)| (sc.rep(r), sc.rep(c))).collect();
-                let sq = cache.get(w, seed, &junk);
+                let permuted = c["jkind"] == "permuted";
+                if permuted && w < 4 {
+                    continue; // needs two data shares in the line
+                }
+                let sq = if permuted {
+                    cache.get_perm(w, seed, axis_of(c["jline"][0].as_str().unwrap()), sc.rep(us(&c["jline"][1])))
+                } else {
+                    cache.get(w, seed, &junk)
+                };
                 if !sq.distinct {
                     continue; // width 2: the parity of one share is that share, lines coincide; see sample replay
                 }
@@ -161,7 +169,7 @@ pub fn replay(args: &Args) {
                     let gotk = if got.starts_with("panic") { panic_kind(&got) } else { got.clone() };
                     let class = json!({"kind": "befp", "cls": cls, "mut": mut0, "demand": demand, "got": gotk,
                                        "index_half": if index >= wabs { "out" } else if index < wabs / 2 { "data" } else { "parity" },
-                                       "square": if junk.is_empty() { "honest" } else { "corrupted" }});
+                                       "square": if junk.is_empty() { "honest" } else if permuted { "parity-of-permuted-data" } else { "corrupted" }});
                     let ck = class.to_string();
                     *classes.entry(ck.clone()).or_default() += 1;
                     viols.push((
